@@ -12,7 +12,7 @@ translations = {
     "after": "{0} dopo",
     "before": "{0} prima",
     # Ordinals
-    "ordinal": {"other": "°"},
+    "ordinal": {"many": "°", "other": "°"},
     # Date formats
     "date_formats": {
         "LTS": "H:mm:ss",
